@@ -31,19 +31,19 @@ struct Call {
     pending_at_call: u32,
 }
 
-static mut CALLS: [Call; 6] = [Call { kind: 0, a: 0, b: 0, c: 0, pending_at_call: 0 }; 6];
-static mut NCALLS: usize = 0;
-static mut FAIL_MASK: u8 = 0; // bit i: the i-th kernel call fails
-static mut CANCEL_TARGET: u64 = 0; // user_data of the in-flight operation the cancel-all completes
+static mut CALLS: crate::verif_stubs::V<[Call; 6]> = crate::verif_stubs::V::new([Call { kind: 0, a: 0, b: 0, c: 0, pending_at_call: 0 }; 6]);
+static mut NCALLS: crate::verif_stubs::V<usize> = crate::verif_stubs::V::new(0);
+static mut FAIL_MASK: crate::verif_stubs::V<u8> = crate::verif_stubs::V::new(0); // bit i: the i-th kernel call fails
+static mut CANCEL_TARGET: crate::verif_stubs::V<u64> = crate::verif_stubs::V::new(0); // user_data of the in-flight operation the cancel-all completes
 
 fn record(c: Call) -> bool {
     unsafe {
-        let i = NCALLS;
+        let i = NCALLS.v;
         if i < 6 {
-            CALLS[i] = c;
+            CALLS.v[i] = c;
         }
-        NCALLS += 1;
-        FAIL_MASK & (1 << i) != 0
+        NCALLS.v += 1;
+        FAIL_MASK.v & (1 << i) != 0
     }
 }
 
@@ -67,12 +67,12 @@ unsafe fn model_register(_fd: i32, op: u32, arg: *const libc::c_void, nr: u32) -
         unsafe { *libc::__errno_location() = libc::EINVAL };
         return -1;
     }
-    if op == IORING_REGISTER_SYNC_CANCEL && unsafe { CANCEL_TARGET } != 0 {
+    if op == IORING_REGISTER_SYNC_CANCEL && unsafe { CANCEL_TARGET.v } != 0 {
         // the kernel cancels the in-flight operation: its final completion is posted
         let mem = k::cq_mem();
         let t = mem.tail.load(Ordering::Relaxed);
         let c = &mut mem.cqes[(t & 1) as usize];
-        c.user_data = unsafe { CANCEL_TARGET };
+        c.user_data = unsafe { CANCEL_TARGET.v };
         c.res = -libc::ECANCELED;
         c.flags = 0;
         mem.tail.store(t.wrapping_add(1), Ordering::Relaxed);
@@ -82,11 +82,11 @@ unsafe fn model_register(_fd: i32, op: u32, arg: *const libc::c_void, nr: u32) -
 
 fn noop_wake_blocked(_s: &crate::io_uring::Shared) {}
 
-static mut DROPS: u32 = 0;
+static mut DROPS: crate::verif_stubs::V<u32> = crate::verif_stubs::V::new(0);
 struct Res(Box<[u8; 4]>);
 impl Drop for Res {
     fn drop(&mut self) {
-        unsafe { DROPS += 1 };
+        unsafe { DROPS.v += 1 };
     }
 }
 
@@ -126,17 +126,17 @@ fn c12_ring_drop_sequence() {
     unsafe { OpState::drop(&mut st, &queue) };
     let queued = k::sq_tail().wrapping_sub(tail_before); // the cancel request, if there was room
     unsafe {
-        NCALLS = 0;
-        DROPS = 0;
+        NCALLS.v = 0;
+        DROPS.v = 0;
         // the cancel-all call itself succeeds (its failure path builds an io::Error whose
         // drop trips a Kani artifact in std's bit-packed repr and cuts the path)
-        FAIL_MASK = kani::any::<u8>() & !0b10;
-        CANCEL_TARGET = ud;
+        FAIL_MASK.v = kani::any::<u8>() & !0b10;
+        CANCEL_TARGET.v = ud;
     }
     let ring = Ring { cq: cqh::build_completions(2), sq };
     drop(ring);
 
-    let (calls, n, mask) = unsafe { (CALLS, NCALLS, FAIL_MASK) };
+    let (calls, n, mask) = unsafe { (CALLS.v, NCALLS.v, FAIL_MASK.v) };
     assert!(n >= 3 && n <= 5, "flush, cancel-all, fetch (+ at most the drain's own entry)");
     // (1) flush
     assert!(calls[0].kind == 1, "first: submit what is queued");
@@ -149,10 +149,10 @@ fn c12_ring_drop_sequence() {
     assert!(calls[2].kind == 1 && calls[2].c & IORING_ENTER_GETEVENTS != 0 && calls[2].b == 1);
     let cancel_ok = mask & 0b10 == 0;
     if cancel_ok {
-        assert!(unsafe { DROPS } == 1, "abandoned operation reclaimed exactly once while the ring is torn down");
+        assert!(unsafe { DROPS.v } == 1, "abandoned operation reclaimed exactly once while the ring is torn down");
         assert!(mem.head.load(Ordering::Relaxed) == mem.tail.load(Ordering::Relaxed), "everything that arrived was consumed");
     } else {
-        assert!(unsafe { DROPS } == 0, "nothing to reclaim yet (the kernel never completed it)");
+        assert!(unsafe { DROPS.v } == 0, "nothing to reclaim yet (the kernel never completed it)");
     }
     kani::cover!(mask & 0b111 == 0 && unsubmitted == 2);
     kani::cover!(mask & 0b1 != 0, "flush fails");
@@ -161,10 +161,130 @@ fn c12_ring_drop_sequence() {
     std::mem::forget(queue);
 }
 
-static mut CLOSE_SEEN_BY_KERNEL: bool = false;
+static mut FLUSH_SEEN: crate::verif_stubs::V<bool> = crate::verif_stubs::V::new(false);
+static mut FLUSH_TO_SUBMIT: crate::verif_stubs::V<u32> = crate::verif_stubs::V::new(0);
+static mut FETCH_SEEN: crate::verif_stubs::V<bool> = crate::verif_stubs::V::new(false);
+static mut CANCEL_SEEN: crate::verif_stubs::V<bool> = crate::verif_stubs::V::new(false);
+static mut CANCEL_FLAGS: crate::verif_stubs::V<u32> = crate::verif_stubs::V::new(0);
+static mut FAIL_FLUSH: crate::verif_stubs::V<bool> = crate::verif_stubs::V::new(false);
+static mut FAIL_FETCH: crate::verif_stubs::V<bool> = crate::verif_stubs::V::new(false);
+static mut CANCEL_ERRNO: crate::verif_stubs::V<i32> = crate::verif_stubs::V::new(0);
+
+// Phase-detecting kernel model without call counters (plain stores only: a
+// read-modify-write counter in a hook makes Kani 0.68 mis-evaluate the
+// `io::Result<()>` that `?` produces afterwards -- see DESIGN, encoding artifacts).
+unsafe fn enter_by_phase(_fd: i32, to_submit: u32, _min: u32, flags: u32, _arg: *const libc::c_void, _sz: usize) -> i32 {
+    unsafe {
+        if flags & IORING_ENTER_GETEVENTS == 0 {
+            FLUSH_SEEN.v = true;
+            FLUSH_TO_SUBMIT.v = to_submit;
+            if FAIL_FLUSH.v {
+                *libc::__errno_location() = libc::EBADF;
+                return -1;
+            }
+            let pending = k::sq_tail().wrapping_sub(k::sq_head());
+            let n = core::cmp::min(to_submit, pending);
+            k::sq_mem().head.store(k::sq_head().wrapping_add(n), Ordering::Relaxed);
+            n as i32
+        } else {
+            FETCH_SEEN.v = true;
+            if FAIL_FETCH.v {
+                *libc::__errno_location() = libc::EBADF;
+                return -1;
+            }
+            0
+        }
+    }
+}
+
+unsafe fn register_refuses(_fd: i32, op: u32, arg: *const libc::c_void, _nr: u32) -> i32 {
+    unsafe {
+        if op == IORING_REGISTER_SYNC_CANCEL {
+            CANCEL_SEEN.v = true;
+            CANCEL_FLAGS.v = *arg.cast::<u8>().add(12).cast::<u32>();
+        }
+        *libc::__errno_location() = CANCEL_ERRNO.v;
+    }
+    -1
+}
+
+//@ prop: C12
+//@ tier: quick
+//@ what: Ring::drop when the synchronous cancel is REFUSED by the kernel (ETIME: something could not be cancelled in time; EEXIST/EINVAL: not allowed from this task): the tear-down still fetches and drains what arrived -- an abandoned operation whose completion is already in the queue is reclaimed exactly once, the head is published -- and the flush before it passed exactly the unsubmitted entries; failing flush/fetch calls are tolerated too
+//@ bound: ring SQ=2/CQ=2; 0..=2 unsubmitted entries; one abandoned (Dropped) single-shot operation whose completion (any result) is in the queue; cancel errno in {ETIME, EEXIST, EINVAL}; flush and fetch may each fail (symbolic)
+//@ encodes: <Ring as Drop>::drop; io_uring::cq::Completions::drop; io_uring::cq::Completions::poll; io_uring::Shared::{enter,register}; io_uring::cq::Completion::process; io_uring::op::drop_state
+//@ stubs: io_uring::Shared::wake_blocked_futures -> no-op (no future waits for a slot here); crate::lock -> try_lock model; <core::io::CustomOwner as Drop>::drop -> no-op; Waker -> direct calls
+//@ ignore_artifact: core/src/io/error/repr_bitpacked\.rs
+#[kani::proof]
+#[kani::unwind(3)]
+#[kani::stub(crate::io_uring::Shared::wake_blocked_futures, noop_wake_blocked)]
+#[kani::stub(crate::lock, crate::verif_stubs::lock_model)]
+#[kani::stub(<core::io::CustomOwner as core::ops::Drop>::drop, crate::verif_stubs::custom_owner_drop_noop)]
+#[kani::stub(<std::task::Waker as std::ops::Drop>::drop, crate::io_uring::verif_kernel::waker_drop_direct)]
+#[kani::stub(<std::task::Waker as std::clone::Clone>::clone, crate::io_uring::verif_kernel::waker_clone_direct)]
+#[kani::stub(std::task::Waker::wake, crate::io_uring::verif_kernel::waker_wake_direct)]
+fn c12_ring_drop_cancel_refused() {
+    let mut t = k::base_table();
+    t.io_uring_enter2 = Some(enter_by_phase);
+    t.io_uring_register = Some(register_refuses);
+    k::install(t);
+    let unsubmitted: u32 = kani::any();
+    kani::assume(unsubmitted <= 2);
+    k::sq_set(0, unsubmitted);
+    let mem = k::cq_mem();
+    mem.head.store(0, Ordering::Relaxed);
+    mem.tail.store(0, Ordering::Relaxed);
+    let sq = crate::io_uring::sq::verif_c04::submissions_in_place(2, false, false);
+    let queue = SubmissionQueue(sq.clone());
+    // an operation abandoned while in flight ...
+    let mut st: State<Singleshot, Res, ()> = State::new(Res(Box::new([0; 4])), ());
+    ops::force_running(&mut st, 0, 0, None);
+    let ud = ops::state_user_data(&st);
+    let tail_before = k::sq_tail();
+    unsafe { OpState::drop(&mut st, &queue) };
+    let queued = k::sq_tail().wrapping_sub(tail_before);
+    // ... whose completion has meanwhile arrived (not yet processed)
+    let res: i32 = kani::any();
+    kani::assume(res >= -4095);
+    mem.cqes[0].user_data = ud;
+    mem.cqes[0].res = res;
+    mem.cqes[0].flags = 0;
+    mem.tail.store(1, Ordering::Relaxed);
+    let which: u8 = kani::any();
+    kani::assume(which < 3);
+    unsafe {
+        DROPS.v = 0;
+        FLUSH_SEEN.v = false;
+        FETCH_SEEN.v = false;
+        CANCEL_SEEN.v = false;
+        FAIL_FLUSH.v = kani::any();
+        FAIL_FETCH.v = kani::any();
+        CANCEL_ERRNO.v = match which {
+            0 => libc::ETIME,
+            1 => libc::EEXIST,
+            _ => libc::EINVAL,
+        };
+    }
+    let ring = Ring { cq: cqh::build_completions(2), sq };
+    drop(ring);
+
+    unsafe {
+        assert!(FLUSH_SEEN.v && FLUSH_TO_SUBMIT.v == unsubmitted + queued, "queued requests are flushed first");
+        assert!(CANCEL_SEEN.v && CANCEL_FLAGS.v == (IORING_ASYNC_CANCEL_ANY | IORING_ASYNC_CANCEL_ALL), "cancel ANY|ALL attempted");
+        assert!(FETCH_SEEN.v, "completions are fetched although the cancel was refused");
+        assert!(DROPS.v == 1, "an abandoned operation whose completion arrived is reclaimed by the tear-down, exactly once");
+        assert!(mem.head.load(Ordering::Relaxed) == 1, "everything that arrived was consumed");
+        kani::cover!(FAIL_FLUSH.v && FAIL_FETCH.v && which == 0, "all three calls fail");
+        kani::cover!(!FAIL_FLUSH.v && !FAIL_FETCH.v && which == 1 && unsubmitted == 2);
+    }
+    kani::cover!(queued == 1 && res == -libc::ECANCELED);
+    std::mem::forget(queue);
+}
+
+static mut CLOSE_SEEN_BY_KERNEL: crate::verif_stubs::V<bool> = crate::verif_stubs::V::new(false);
 
 unsafe fn enter_sees_close(_fd: i32, _to_submit: u32, _min: u32, _flags: u32, _arg: *const libc::c_void, _sz: usize) -> i32 {
-    unsafe { CLOSE_SEEN_BY_KERNEL = true };
+    unsafe { CLOSE_SEEN_BY_KERNEL.v = true };
     0
 }
 
@@ -184,8 +304,8 @@ fn c12_fd_dropped_after_ring() {
     k::install(t);
     k::sq_set(0, 0);
     unsafe {
-        k::CLOSES = 0;
-        CLOSE_SEEN_BY_KERNEL = false;
+        k::CLOSES.v = 0;
+        CLOSE_SEEN_BY_KERNEL.v = false;
     }
     let sq = crate::io_uring::sq::verif_c04::submissions_in_place(2, false, false);
     let queue = SubmissionQueue(sq.clone());
@@ -197,8 +317,8 @@ fn c12_fd_dropped_after_ring() {
     kani::assume(n >= 0 && n < i32::MAX);
     let fd = unsafe { AsyncFd::from_raw(n, Kind::File, queue.clone()) };
     drop(fd);
-    let closed_sync = unsafe { k::CLOSES == 1 && k::LAST_CLOSED == n };
-    let submitted = unsafe { CLOSE_SEEN_BY_KERNEL };
+    let closed_sync = unsafe { k::CLOSES.v == 1 && k::LAST_CLOSED.v == n };
+    let submitted = unsafe { CLOSE_SEEN_BY_KERNEL.v };
     assert!(closed_sync || submitted, "descriptor of an AsyncFd dropped after its Ring is never closed");
     kani::cover!(true);
     std::mem::forget(queue);
